@@ -19,6 +19,9 @@ def run(chk, tier):
         n = spec_array.check_dynamic(chk, lib)
         r = rint.RInt(chk, lib.facts, lib.label, ("S1", "S2", "S3"))
         r.run(lambda f: is_lib_or_gen(f, root) and f.get("cls_tpl") == "sbepp::detail::dynamic_array_ref")
+    # iterator-pair overloads are documented for input iterators: a single-pass range is traversed once
+    import singlepass
+    singlepass.check(chk, lib_for("vdims", "c++17"))
     chk.floor("ARR.data rows", chk.rule_counts.get("ARR.data", 0), 200)
     # length prefix = element count = byte count only for one-byte elements: linked validator guard
     import gguard
